@@ -235,7 +235,7 @@ def campaign(name, programs, workdir, feat="ref", spec="TraceFatFs", n_shards=No
                         part += 1
                         pn = ef[:-7] + ".%02d.ndjson" % part
                         out = open(pn, "w")
-                        pieces.append((k * 100 + part, pf, pn))
+                        pieces.append(((k + 1) * 1000 + part, pf, pn))       # (distinct from every unsplit shard number)
                         size = 0
                     out.write(ln)
                     size += len(ln)
